@@ -327,6 +327,9 @@ pub unsafe extern "C" fn harness_prec(ops: *const u8, nops: usize, shapes: *cons
 #[no_mangle]
 pub unsafe extern "C" fn harness_topo(dec: *const u8, n: u32, rounds: u32) -> u32 {
     let n = n as usize;
+    // bit 8 of `rounds`: the last round only observes what is offered (no decisions are taken in it)
+    let observe_last = rounds & 0x100 != 0;
+    let rounds = rounds & 0xff;
     let d = slice::from_raw_parts(dec, 64);
     let mut t: topo::TopoSort<u8> = topo::TopoSort::new();
     t.extend((0..n as u8).collect::<Vec<u8>>());
@@ -359,6 +362,7 @@ pub unsafe extern "C" fn harness_topo(dec: *const u8, n: u32, rounds: u32) -> u3
             }
         };
         if leaves.is_empty() { return 4; }
+        if observe_last && _round + 1 == rounds { return 0; }
         for item in leaves {
             let choice = d[di]; di += 1;
             if choice & 1 == 0 {
